@@ -1,6 +1,27 @@
-(* Property C17 — the update report tells the truth about gaps and ambiguities. Property theorems only.
-   The per-method counters vs the specification's tuples (from Proofs/TablesProofs.v T3) are added when assembled. *)
-From Y2 Require Import Model.Registry Model.Compile Proofs.ReportProofs.
+(* Property C17 — the update report tells the truth about gaps and ambiguities. Property theorems only. *)
+From Y2 Require Import Model.Registry Model.Compile Spec.Dispatch Proofs.SpecProofs Proofs.ReportProofs Proofs.ReportCompose.
+
+(* For every well-formed registry, with any assignment of abstract flags: the report update returns raises
+   not_implemented iff some legal tuple of registered classes of some method has no applicable definition, ambiguous iff
+   some legal tuple has applicable definitions but no most specific one, the concrete_ counterparts iff such a tuple
+   exists among tuples of non-abstract classes only, and cells is the number of multi-method dispatch cells built. *)
+Theorem C17_report : forall R C, wf_registry R -> compile R = Ok C ->
+  (rp_ni (o_report C) <> 0 <-> spec_flag R is_nodef false = true) /\
+  (rp_amb (o_report C) <> 0 <-> spec_flag R is_ambig false = true) /\
+  (rp_cni (o_report C) <> 0 <-> spec_flag R is_nodef true = true) /\
+  (rp_camb (o_report C) <> 0 <-> spec_flag R is_ambig true = true) /\
+  rp_cells (o_report C) = fold_right (fun t s => (if 1 <? length (t_groups t) then length (t_cells t) else 0) + s) 0 (o_tables C).
+Proof. exact report_correct. Qed.
+Print Assumptions C17_report.
+
+(* what the specification's flags mean *)
+Theorem C17_flag_meaning : forall R which concrete_only,
+  spec_flag R which concrete_only = true <->
+  exists m args, In m (r_methods R) /\ legal R m args /\
+                 which (spec_dispatch R (meth_defs R m) args) = true /\
+                 (concrete_only = true -> forall c, In c args -> is_abstract R c = false).
+Proof. exact spec_flag_correct. Qed.
+Print Assumptions C17_flag_meaning.
 
 (* the total report raises a flag exactly when some method's counter is non-zero, and cells add up *)
 Theorem C17_total_flags : forall reps : list mreport,
@@ -12,3 +33,14 @@ Theorem C17_total_flags : forall reps : list mreport,
   rp_cells tot = fold_right (fun r s => rp_cells r + s) 0 reps.
 Proof. exact total_report_flags. Qed.
 Print Assumptions C17_total_flags.
+
+(* non-vacuity: the property's own example — abstract A and definitions (A,B),(A,C),(B,D),(C,D),(D,D):
+   the only ambiguous tuple (A,D) contains the abstract class: ambiguous is raised, concrete_ambiguous is not *)
+Example C17_example :
+  let R := mk_reg [mk_class 1 [1] true; mk_class 2 [2;1] false; mk_class 3 [3;1] false; mk_class 4 [4;2;3;1] false]%N
+                  [mk_meth [1;1]%N [mk_def [1;2]%N true; mk_def [1;3]%N true; mk_def [2;4]%N true; mk_def [3;4]%N true; mk_def [4;4]%N true] [true;true]] [] in
+  match compile R with
+  | Ok C => rp_amb (o_report C) = 1 /\ rp_camb (o_report C) = 0 /\ spec_flag R is_ambig false = true /\ spec_flag R is_ambig true = false
+  | Err _ => False
+  end.
+Proof. vm_compute. repeat split. Qed.
